@@ -305,7 +305,8 @@ def run_instance(d):
                 in_repo = any("/sysloss/" in f.filename for f in frames)
                 from .symx import NonFinite
 
-                if not isinstance(val, NonFinite) and (not in_repo or frames[-1].filename.startswith(VERIF)):
+                if not isinstance(val, NonFinite) and not getattr(val, "_contract_model", False) and (
+                        not in_repo or frames[-1].filename.startswith(VERIF)):
                     # raised by the harness / oracle / a shim, not by the code under test
                     raise HarnessError("%s: %r\n%s" % (type(val).__name__, val, tb))
                 # an exception the harness did not expect: candidate "crash" violation, to be replayed
